@@ -271,6 +271,17 @@ example : tracePhase 100 80 120 1
     = .ok { table := [90, 95, 100, 105, 110], minPossible := 92, minFlag := true,
             maxPossible := 108, maxFlag := true } := by decide +kernel
 
+/-- **Observation.** By `flags_iff` the flag only says "the table ends strictly inside the requested
+range"; it is ALSO raised when the loop stopped for a reason other than a vanishing eigenvalue: here the
+step size collapsed at 110 (`tiny = true`, eigenvalue still positive) and the upper end is flagged as a
+genuine disappearance all the same.  (The same holds for a repeated temperature, an RK45 failure or a
+`RuntimeWarning`, which all end the list of records.) -/
+theorem tiny_step_flagged :
+    tracePhase 100 80 120 1 [⟨105, true, false⟩, ⟨110, true, false⟩, ⟨110 + 1 / 1000, true, true⟩]
+      [⟨90, true, false⟩, ⟨80, true, false⟩]
+    = .ok { table := [80, 90, 100, 105, 110], minPossible := 82, minFlag := false,
+            maxPossible := 108, maxFlag := true } := by decide +kernel
+
 /-! ## T11.1e errors; a single downward step is discarded -/
 
 /-- **T11.1e.** "Failed to trace phase" is raised exactly when at most ONE downward record and NO upward
